@@ -355,7 +355,11 @@ def subenvelope(ctx):
     built = App("meth:from_obj", (P("cls"), obj))
     seq = [e.args[0] for e in all_effects(inline[0].effects) if isinstance(e, App) and e.op == "eff:call" and isinstance(e.args[0], App)
            and e.args[0].op.startswith("meth:")]
-    names = [(c.op[5:], c.args[0] == built or c == built) for c in seq]
+    from .c01 import _summary as _refresh_summary
+    names = []
+    for c in seq:
+        steps = _refresh_summary(ctx, c.op[5:])   # a helper that runs the refreshers on self counts as those calls
+        names += [(m_, c.args[0] == built or c == built) for m_ in (steps or [c.op[5:]])]
     R.check("C05-D2 dependency embedded = dependency created alone", [n for n, _ in names] == ["from_obj", "update_severable_digests", "update_digest", "to_cbor"]
             and all(ok for _, ok in names) and inline[0].value == App("meth:to_cbor", (built,)),
             "inline: from_obj -> update_severable_digests -> update_digest -> to_cbor on the same object", mod=fi.module, node=fi.node, function=fq,
@@ -365,6 +369,7 @@ def subenvelope(ctx):
     pseq = [e.args[0].op[5:] if e.args[0].op.startswith("meth:") else e.args[0].args[0].obj.name for o in po for e in all_effects(o.effects)
             if isinstance(e, App) and e.op == "eff:call" and isinstance(e.args[0], App) and (
                 e.args[0].op.startswith("meth:") or (e.args[0].op == "call" and isinstance(e.args[0].args[0], Ref)))]
+    pseq = [m_ for n_ in pseq for m_ in (_refresh_summary(ctx, n_) or [n_])]
     R.check("C05-D2 dependency embedded = dependency created alone", pseq == ["from_obj", "update_severable_digests", "update_digest", "to_cbor"],
             "stand-alone pipeline has the same shape (sibling agreement)", mod=psd.module, node=psd.node, function=ctx.fq(psd),
             expected="from_obj, update_severable_digests, update_digest, to_cbor", found=f"{pseq}")
